@@ -733,3 +733,131 @@ Proof.
   - rewrite Hl. exact (LitSem_shape _ _ Hs).
   - exact (ctx_preserved _ _ _ _ _ _ _ _ _ H).
 Qed.
+
+(* ------------------------------------------------------------------ 3. failures *)
+Lemma crestore_tolerant_some c x sv : exists c', crestore true c x sv = Some c'.
+Proof.
+  unfold crestore. destruct sv as [v|]; [eexists; reflexivity|].
+  destruct (cpop c x); eexists; reflexivity.
+Qed.
+
+Section UnrollErr.
+Variable pol : undefined_policy.
+Variable tol : bool.
+Variable rows : list raw.
+Notation PB := (parse_block pol ScopeRestore EmptySkip tol rows).
+Notation DS := (ds pol).
+
+Definition unroll_err_at (f : nat) : Prop :=
+  forall s bt omit e,
+    PB f s bt omit = RErr e -> (tol = true \/ e <> KeyErr) ->
+    DS f (skipn (p_pos s) rows) (p_ctx s) bt omit = RErr e.
+
+Lemma iter_err f (IHf : unroll_err_at f) bookmark c x idx :
+  forall elems n st e,
+    (p_ctx st = c \/ exists e0 m, p_ctx st = bind_loop c x idx e0 m) ->
+    loop_iter (fun st0 => PB f st0 BFor false) bookmark x idx elems n st = RErr e ->
+    (tol = true \/ e <> KeyErr) ->
+    ds_iter (fun c' => DS f (skipn bookmark rows) c' BFor false) c x idx elems n (skipn (p_pos st) rows) = RErr e.
+Proof.
+  induction elems as [|e0 more IH]; intros n st e Hinv H Hk; cbn [loop_iter ds_iter] in H |- *; [discriminate|].
+  assert (Hb : bind_loop (p_ctx st) x idx e0 n = bind_loop c x idx e0 n).
+  { destruct Hinv as [->|[e1 [m1 ->]]]; [reflexivity|apply bind_loop_twice]. }
+  destruct (PB f (mkP bookmark (bind_loop (p_ctx st) x idx e0 n) (EvEnter BFor false :: p_log st)) BFor false) as [st1|e1] eqn:E1.
+  - pose proof (ctx_preserved _ _ _ _ _ _ _ _ _ E1) as Hc1. cbn [p_ctx] in Hc1. rewrite Hb in Hc1.
+    destruct (unroll_ok pol tol rows f _ _ _ _ E1) as [out1 [evs1 [Hd1 _]]]. cbn [p_pos p_ctx] in Hd1.
+    rewrite Hb in Hd1. rewrite Hd1.
+    rewrite (IH (S n) st1 e (or_intror (ex_intro _ e0 (ex_intro _ n Hc1))) H Hk). reflexivity.
+  - inversion H; subst e1. pose proof (IHf _ _ _ _ E1 Hk) as Hd1. cbn [p_pos p_ctx] in Hd1.
+    rewrite Hb in Hd1. rewrite Hd1. reflexivity.
+Qed.
+
+Theorem unroll_err : forall f, unroll_err_at f.
+Proof.
+  induction f as [|f IH]; intros s bt omit e H Hk; cbn [parse_block] in H.
+  { inversion H; subst. reflexivity. }
+  destruct (nth_error rows (p_pos s)) as [r|] eqn:Hn.
+  2:{ unfold next_row in H. rewrite Hn in H. cbn [option_map] in H.
+      rewrite (skipn_nth_none _ _ Hn). cbn [ds].
+      destruct bt; cbn [end_of_block] in H |- *; try discriminate; inversion H; reflexivity. }
+  rewrite (skipn_nth_some _ _ _ Hn). cbn [ds].
+  destruct (next_row pol rows s omit) as [[s1 orow]|e0] eqn:En.
+  2:{ unfold next_row in En. rewrite Hn in En. destruct omit; [discriminate|].
+      destruct (instantiate pol (p_ctx s) r); [discriminate|]. inversion En; inversion H; subst. reflexivity. }
+  destruct (next_row_some _ _ _ _ _ _ _ Hn En) as [row [e1 [-> [Hrow [Hp1 [Hc1 [Hl1 Ht1]]]]]]].
+  cbn [option_map] in H. rewrite Hrow. rewrite <- Hp1.
+  destruct (end_of_block bt (Some (i_kind row))) as [[|]|e0] eqn:Ee; [discriminate| |inversion H; reflexivity].
+  (* a nested call that succeeds / fails *)
+  assert (Hok : forall X b o1 s2, PB f X b o1 = ROk s2 -> p_ctx X = p_ctx s ->
+            exists out2, DS f (skipn (p_pos X) rows) (p_ctx s) b o1 = ROk (out2, skipn (p_pos s2) rows) /\ p_ctx s2 = p_ctx s).
+  { intros X b o1 s2 HX HcX. destruct (unroll_ok pol tol rows f _ _ _ _ HX) as [o2 [ev2 [Hd _]]].
+    exists o2. rewrite <- HcX. split; [exact Hd|]. exact (ctx_preserved _ _ _ _ _ _ _ _ _ HX). }
+  assert (Herr : forall X b o1, PB f X b o1 = RErr e -> p_ctx X = p_ctx s ->
+            DS f (skipn (p_pos X) rows) (p_ctx s) b o1 = RErr e).
+  { intros X b o1 HX HcX. rewrite <- HcX. exact (IH _ _ _ _ HX Hk). }
+  destruct (omit || negb (i_inc row)) eqn:Esk.
+  - assert (Hskipblock : forall b,
+              match PB f (log s1 (EvEnter b true)) b true with ROk s2 => PB f s2 bt omit | RErr e => RErr e end = RErr e ->
+              match DS f (skipn (p_pos s1) rows) (p_ctx s) b true with
+              | ROk (_, rest2) => DS f rest2 (p_ctx s) bt omit
+              | RErr e => RErr e
+              end = RErr e).
+    { intros b Hm. destruct (PB f (log s1 (EvEnter b true)) b true) as [s2|e2] eqn:E2.
+      - destruct (Hok _ _ _ _ E2 Hc1) as [o2 [Hd2 Hc2]]. cbn [log p_pos] in Hd2. rewrite Hd2.
+        exact (Herr _ _ _ Hm Hc2).
+      - inversion Hm; subst e2. pose proof (Herr _ _ _ E2 Hc1) as Hd2. cbn [log p_pos] in Hd2. rewrite Hd2. reflexivity. }
+    destruct (i_kind row); [exact (Hskipblock _ H)|exact (Herr _ _ _ H Hc1)|exact (Hskipblock _ H)|exact (Herr _ _ _ H Hc1)|exact (Herr _ _ _ H Hc1)].
+  - apply orb_false_iff in Esk. destruct Esk as [-> Hinc].
+    destruct (i_kind row) eqn:Ek.
+    + destruct (i_vars row) as [|x more]; [inversion H; reflexivity|]. destruct x as [|x0 xr]; [inversion H; reflexivity|].
+      set (x := x0 :: xr) in *. unfold idx_of.
+      set (idx := match more with i :: _ => match i with [] => None | _ => Some i end | [] => None end) in *.
+      destruct (loop_iter (fun st => PB f st BFor false) (p_pos s1) x idx (i_iter row) 0 (log s1 EvPush)) as [s3|e3] eqn:E3.
+      2:{ inversion H; subst e3.
+          pose proof (iter_err f IH (p_pos s1) (p_ctx s) x idx (i_iter row) 0 (log s1 EvPush) e (or_introl Hc1) E3 Hk) as HdI.
+          cbn [log p_pos] in HdI. rewrite HdI. reflexivity. }
+      assert (Hinv3 : p_ctx s3 = p_ctx s \/ exists e0 m, p_ctx s3 = bind_loop (p_ctx s) x idx e0 m).
+      { refine (loop_iter_ctx _ _ x idx (p_ctx s) _ _ _ (log s1 EvPush) _ (or_introl Hc1) E3).
+        intros st st' Hb. exact (ctx_preserved _ _ _ _ _ _ _ _ _ Hb). }
+      destruct (iter_ok pol tol rows f (unroll_ok pol tol rows f) (p_pos s1) (p_ctx s) x idx (i_iter row) 0 (log s1 EvPush) s3 (or_introl Hc1) E3)
+        as [bodies [evsI [HdI _]]]. cbn [log p_pos] in HdI. rewrite HdI.
+      destruct (match i_iter row with [] => PB f (log s3 (EvEnter BFor true)) BFor true | _ => ROk s3 end) as [s3'|eo] eqn:Eo.
+      2:{ inversion H; subst eo. destruct (i_iter row) as [|e0 el]; [|discriminate].
+          cbn [loop_iter] in E3. inversion E3; subst s3.
+          pose proof (Herr _ _ _ Eo Hc1) as Hdo. cbn [log p_pos] in Hdo. rewrite Hdo. reflexivity. }
+      assert (Hskip : match i_iter row with [] => DS f (skipn (p_pos s1) rows) (p_ctx s) BFor true | _ => ROk ([], skipn (p_pos s3) rows) end
+                      = ROk ([], skipn (p_pos s3') rows) /\ p_ctx s3' = p_ctx s3).
+      { destruct (i_iter row) as [|e0 el].
+        - cbn [loop_iter] in E3. inversion E3; subst s3.
+          destruct (unroll_ok pol tol rows f _ _ _ _ Eo) as [oo [evo [Hdo [_ [_ Hoo]]]]]. cbn [log p_pos p_ctx] in Hdo.
+          rewrite (Hoo eq_refl), Hc1 in Hdo. split; [exact Hdo|]. exact (ctx_preserved _ _ _ _ _ _ _ _ _ Eo).
+        - inversion Eo; subst. split; reflexivity. }
+      destruct Hskip as [Hdo Hco]. rewrite Hdo.
+      cbn [log p_ctx p_pos p_log saved_of] in H.
+      assert (Hrest : forall c', restore_loop tol (p_ctx s3') x idx (cget (p_ctx s1) x) (saved_idx (p_ctx s1) idx) = Some c' -> c' = p_ctx s).
+      { intros c' Hr. rewrite Hco, Hc1 in Hr. exact (loop_exit_ctx _ _ _ _ _ _ Hinv3 Hr). }
+      unfold restore_loop, saved_idx in Hrest.
+      assert (Hfin : forall c2, c2 = p_ctx s -> PB f (mkP (p_pos s3') c2 (EvEnd (i_id row) :: p_log s3')) bt false = RErr e ->
+                  match DS f (skipn (p_pos s3') rows) (p_ctx s) bt false with
+                  | ROk (out, rem) => ROk (lit_row KBeginBlock (i_id row) (i_text row) :: bodies ++ end_row :: out, rem)
+                  | RErr e => RErr e
+                  end = RErr e).
+      { intros c2 -> Hm. pose proof (Herr _ _ _ Hm eq_refl) as Hd3. cbn [p_pos] in Hd3. rewrite Hd3. reflexivity. }
+      assert (Hkey : forall c0 y sv, crestore tol c0 y sv = None -> RErr (T:=pst) KeyErr = RErr e -> False).
+      { intros c0 y sv Hc Hq. inversion Hq; subst e. destruct Hk as [Ht|Hne]; [|apply Hne; reflexivity].
+        rewrite Ht in Hc. destruct (crestore_tolerant_some c0 y sv) as [c' E']. congruence. }
+      destruct (crestore tol (p_ctx s3') x (cget (p_ctx s1) x)) as [c1|] eqn:Ec1; [|exfalso; exact (Hkey _ _ _ Ec1 H)].
+      destruct idx as [i|].
+      * destruct (crestore tol c1 i (cget (p_ctx s1) i)) as [c2|] eqn:Ec2; [|exfalso; exact (Hkey _ _ _ Ec2 H)].
+        exact (Hfin _ (Hrest _ eq_refl) H).
+      * exact (Hfin _ (Hrest _ eq_refl) H).
+    + destruct bt; cbn in Ee; discriminate.
+    + destruct (PB f (log (log s1 EvPush) (EvEnter BBlock false)) BBlock false) as [s2|e2] eqn:E2.
+      * destruct (Hok _ _ _ _ E2 Hc1) as [o2 [Hd2 Hc2]]. cbn [log p_pos] in Hd2. rewrite Hd2.
+        pose proof (Herr _ _ _ H Hc2) as Hd3. cbn [log p_pos] in Hd3. rewrite Hd3. reflexivity.
+      * inversion H; subst e2. pose proof (Herr _ _ _ E2 Hc1) as Hd2. cbn [log p_pos] in Hd2. rewrite Hd2. reflexivity.
+    + destruct bt; cbn in Ee; discriminate.
+    + pose proof (Herr _ _ _ H Hc1) as Hd3. cbn [log p_pos] in Hd3. rewrite Hd3. reflexivity.
+Qed.
+
+End UnrollErr.
